@@ -179,6 +179,13 @@ def materialize(desc):
         obj = None
         body = ""
         expect = {"kind": "error", "id": None}
+    elif k == "abandon":
+        # the client sends a call of the slow method and goes away without reading: when the method is let go the handler
+        # writes to a closed connection (EPIPE on a Unix socket, possibly nothing noticed on TCP); whatever happens to this
+        # handler, the server goes on serving
+        obj = _call("slow", [tok], rid)
+        tokens[tok] = 1
+        expect = {"kind": "none"}
     elif k == "long_clen":
         # the client announces more bytes than it sends and then half-closes: the server reads what there is (end of file
         # ends the chunk loop) and serves that text
@@ -222,10 +229,26 @@ def materialize(desc):
 
 def in_model(k):
     """connections that reach do_POST (the handler-level model covers exactly those)"""
-    return k not in ("garbage", "empty_conn", "get")
+    return k not in ("garbage", "empty_conn", "get", "abandon")
 
 
 # ---------------------------------------------------------------- raw client
+
+def http_send_and_leave(family, address, raw, timeout=IO_TIMEOUT):
+    """One connection: send the bytes and close without reading anything."""
+    s = socket.socket(family, socket.SOCK_STREAM)
+    try:
+        if family == socket.AF_INET:
+            s.settimeout(timeout)
+        s.connect(address)
+        s.settimeout(timeout)
+        s.sendall(raw)
+        return b""
+    except Exception as ex:      # noqa
+        return ex
+    finally:
+        s.close()
+
 
 def http_exchange(family, address, raw, timeout=IO_TIMEOUT, half_close=False):
     """One connection: send the bytes, read until the server closes.  Returns the bytes received, or an
